@@ -113,6 +113,8 @@ def run_for(prop, root, seed=0, jobs=16):
     }
     for t in table:
         print(f"selftest {t['case']:34s} {t['kind']:11s} {t['status']:12s} {t['detail'][:110]}")
+    if os.environ.get('SA_NO_AUTO'):
+        return extra, fails
     auto = auto_mutants(prop, root, seed)
     extra.update(auto)
     a = auto['auto_mutants']
@@ -210,6 +212,7 @@ def main():
 
     prop = sys.argv[1].upper()
     root = sys.argv[3] if len(sys.argv) > 3 else '/repo'
+    os.environ.setdefault('SA_NO_AUTO', '1')  # the module CLI is the developer loop: hand-written cases only
     extra, fails = run_for(prop, root)
     print('FAILS:', fails)
     return 1 if fails else 0
